@@ -1,5 +1,345 @@
 package an
 
+import (
+	"fmt"
+	"path/filepath"
+	"sort"
+	"strings"
+)
+
+// The engine self-test corpus: a synthetic package that exists only as a go/packages
+// overlay (nothing is written into /repo).  It is loaded together with the real tree, so
+// the engines run on it exactly as they run on mangos.  Functions named bad… must be
+// reported by the named engine with the named kind; functions named ok… are the
+// corresponding correct idioms and must not be reported.  This is the "tiny positive
+// example that must match on every run" for rules whose expected count on the tree is
+// zero, and the guard against an engine going blind after a refactoring of the analyser.
+const selfTestSrc = `package zzselftest
+
+import (
+	"errors"
+	"sync"
+	"time"
+
+	mangos "go.nanomsg.org/mangos/v3"
+)
+
+type T struct {
+	sync.Mutex
+	closed bool
+	n      int
+	q      []int
+	cv     *sync.Cond
+	tm     *time.Timer
+}
+
+func NewT() *T {
+	t := &T{}
+	t.cv = sync.NewCond(t)
+	return t
+}
+
+func work() {}
+
+// ---- E1 lock typestate
+func (t *T) badE1HeldAtReturn(x bool) int {
+	t.Lock()
+	if x {
+		return 1
+	}
+	t.Unlock()
+	return 0
+}
+
+func (t *T) okE1Defer(x bool) int {
+	t.Lock()
+	defer t.Unlock()
+	if x {
+		return 1
+	}
+	return 0
+}
+
+func (t *T) badE1Double() {
+	t.Lock()
+	t.Lock()
+	t.Unlock()
+	t.Unlock()
+}
+
+// ---- E3 guarded-by
+func (t *T) SetN(v int) {
+	t.Lock()
+	t.n = v
+	t.Unlock()
+}
+
+func (t *T) BadE3Read() int { return t.n }
+
+func (t *T) OkE3Read() int {
+	t.Lock()
+	v := t.n
+	t.Unlock()
+	return v
+}
+
+// ---- E3b check-then-act, and the closer used by the Cond rules
+func (t *T) Close() {
+	t.Lock()
+	if t.tm != nil {
+		t.tm.Stop()
+	}
+	t.closed = true
+	t.cv.Broadcast()
+	t.Unlock()
+}
+
+func (t *T) BadE3bStale() {
+	t.Lock()
+	if t.closed {
+		t.Unlock()
+		return
+	}
+	t.Unlock()
+	work()
+	t.Lock()
+	t.tm = time.AfterFunc(time.Second, work)
+	t.Unlock()
+}
+
+func (t *T) OkE3bRecheck() {
+	t.Lock()
+	if t.closed {
+		t.Unlock()
+		return
+	}
+	t.Unlock()
+	work()
+	t.Lock()
+	if !t.closed {
+		t.tm = time.AfterFunc(time.Second, work)
+	}
+	t.Unlock()
+}
+
+// ---- Cond rules
+func (t *T) BadCondWait() {
+	t.Lock()
+	for len(t.q) == 0 {
+		t.cv.Wait()
+	}
+	t.Unlock()
+}
+
+func (t *T) OkCondWait() {
+	t.Lock()
+	for len(t.q) == 0 && !t.closed {
+		t.cv.Wait()
+	}
+	t.Unlock()
+}
+
+func (t *T) BadCondSignal() {
+	t.Lock()
+	t.q = append(t.q, 1)
+	t.cv.Signal()
+	t.Unlock()
+}
+
+// ---- E5 message ownership
+func BadE5Double(m *mangos.Message) {
+	m.Free()
+	m.Free()
+}
+
+func OkE5Once(m *mangos.Message) { m.Free() }
+
+func BadE5UseAfter(m *mangos.Message) int {
+	m.Free()
+	return len(m.Body)
+}
+
+func BadE5WriteBeforeUnique(m *mangos.Message) *mangos.Message {
+	m.Header = m.Header[:0]
+	m = m.MakeUnique()
+	return m
+}
+
+func OkE5UniqueThenWrite(m *mangos.Message) *mangos.Message {
+	m = m.MakeUnique()
+	m.Header = m.Header[:0]
+	return m
+}
+
+type badSender struct{}
+
+func (badSender) SendMsg(m *mangos.Message) error {
+	defer m.Free()
+	return errors.New("failed")
+}
+
+type okSender struct{ fail bool }
+
+// (methods are only analysed for types that can reach an interface)
+var _ = []interface{}{badSender{}, okSender{}}
+
+func (s okSender) SendMsg(m *mangos.Message) error {
+	if s.fail {
+		return errors.New("failed")
+	}
+	m.Free()
+	return nil
+}
+
+// ---- E6d buffer bounds
+func BadE6d(m *mangos.Message) byte { return m.Body[3] }
+
+func OkE6d(m *mangos.Message) byte {
+	if len(m.Body) < 4 {
+		return 0
+	}
+	return m.Body[3]
+}
+
+func OkE6dRange(m *mangos.Message) (n int) {
+	for i := range m.Body {
+		n += int(m.Body[i])
+	}
+	return
+}
+`
+
+const selfTestRel = "internal/zzselftest"
+
 func runSelfTests(verifDir string) SelfTestResult {
-	return SelfTestResult{OK: true}
+	res := SelfTestResult{}
+	repo := "/repo"
+	conf := Config{Dir: repo, Overlay: map[string][]byte{
+		filepath.Join(repo, selfTestRel, "cases.go"): []byte(selfTestSrc),
+	}}
+	p, err := Load(conf)
+	if err != nil {
+		res.Failures = append(res.Failures, "load with the self-test overlay failed: "+err.Error())
+		return res
+	}
+	if p.ByRel[selfTestRel] == nil {
+		res.Failures = append(res.Failures, "the self-test package was not loaded")
+		return res
+	}
+	// collect findings per function of the synthetic package: "engine/kind"
+	got := map[string]map[string]bool{}
+	add := func(fn, what string) {
+		i := strings.LastIndex(fn, ".")
+		short := fn[i+1:]
+		short = strings.TrimSuffix(short, "$1")
+		if got[short] == nil {
+			got[short] = map[string]bool{}
+		}
+		got[short][what] = true
+	}
+	inSelf := func(name string) bool { return strings.HasPrefix(name, selfTestRel+".") }
+	for _, is := range p.E1().issues {
+		if n := p.FuncName(is.Fn); inSelf(n) {
+			add(n, "E1/"+is.Kind)
+		}
+	}
+	e3 := p.E3()
+	for _, k := range e3.keys {
+		for _, a := range e3.fields[k].Bad {
+			if n := p.FuncName(a.Fn); inSelf(n) {
+				add(n, "E3/unguarded")
+			}
+		}
+	}
+	for _, is := range p.E3b() {
+		if n := p.FuncName(is.Fn); inSelf(n) && is.Lifecycle {
+			add(n, "E3b/stale")
+		}
+	}
+	for _, is := range p.E5().issues {
+		if n := p.FuncName(is.Fn); inSelf(n) {
+			add(n, "E5/"+is.Kind)
+		}
+	}
+	for _, u := range p.E6dUses(func(rel string) bool { return rel == selfTestRel }) {
+		if u.Have < u.Need {
+			add("x."+u.Fn, "E6d/unbounded")
+		}
+	}
+	r := NewReport("SELF", "selftest")
+	e4CondWaits(p, r, "cond")
+	for _, o := range r.Obs {
+		if o.Status == Discharged || !strings.Contains(o.Key, selfTestRel+".") {
+			continue
+		}
+		kind := "cond/wait"
+		cut := strings.Index(o.Key, "/Wait(")
+		if j := strings.Index(o.Key, "/Signal("); j >= 0 {
+			kind, cut = "cond/signal", j
+		}
+		if j := strings.Index(o.Key, "/wakes-after-"); j >= 0 {
+			kind, cut = "cond/closer", j
+		}
+		if cut < 0 {
+			continue
+		}
+		fn := o.Key[:cut]
+		add(fn, kind)
+	}
+	want := map[string]string{
+		"badE1HeldAtReturn":      "E1/held-at-return",
+		"badE1Double":            "E1/double-lock",
+		"BadE3Read":              "E3/unguarded",
+		"BadE3bStale":            "E3b/stale",
+		"BadCondWait":            "cond/wait",
+		"BadCondSignal":          "cond/signal",
+		"BadE5Double":            "E5/double-release",
+		"BadE5UseAfter":          "E5/use-after-release",
+		"BadE5WriteBeforeUnique": "E5/write-before-unique",
+		"SendMsg":                "E5/release-on-error", // badSender (okSender shares the name: see below)
+		"BadE6d":                 "E6d/unbounded",
+	}
+	silent := []string{"okE1Defer", "OkE3Read", "OkE3bRecheck", "OkCondWait", "OkE5Once", "OkE5UniqueThenWrite", "OkE6d", "OkE6dRange", "SetN", "Close", "NewT"}
+	var names []string
+	for k := range want {
+		names = append(names, k)
+	}
+	sort.Strings(names)
+	for _, fn := range names {
+		res.Cases++
+		if !got[fn][want[fn]] {
+			res.Failures = append(res.Failures, fmt.Sprintf("engine went blind: %s should be reported as %s, got %v", fn, want[fn], keysOf(got[fn])))
+		}
+	}
+	for _, fn := range silent {
+		res.Cases++
+		if len(got[fn]) != 0 {
+			res.Failures = append(res.Failures, fmt.Sprintf("false alarm on a correct idiom: %s reported as %v", fn, keysOf(got[fn])))
+		}
+	}
+	// the two SendMsg implementations: exactly one release-on-error (badSender's)
+	res.Cases++
+	n := 0
+	for _, is := range p.E5().issues {
+		if inSelf(p.FuncName(is.Fn)) && is.Kind == "release-on-error" {
+			if !strings.Contains(p.FuncName(is.Fn), "badSender") {
+				res.Failures = append(res.Failures, "false alarm: release-on-error reported for "+p.FuncName(is.Fn))
+			}
+			n++
+		}
+	}
+	if n == 0 {
+		res.Failures = append(res.Failures, "engine went blind: deferred Free on an error return of badSender.SendMsg not reported")
+	}
+	res.OK = len(res.Failures) == 0
+	return res
+}
+
+func keysOf(m map[string]bool) []string {
+	var out []string
+	for k := range m {
+		out = append(out, k)
+	}
+	sort.Strings(out)
+	return out
 }
